@@ -211,6 +211,11 @@ def bitwiseConverted (old : Bool) (isAnd : Bool) (v1 v2 : V) : Option V :=   -- 
 def isRegexMeta (c : Nat) : Bool :=
   c = 36 || c = 40 || c = 41 || c = 46 || c = 43 || c = 42 || c = 63   -- $ ( ) . + * ?
 
+/-- characters that `regex::escape` prefixes with a backslash: `\ . + * ? ( ) | [ ] { } ^ $ # & - ~` -/
+def regexEscapes (c : Nat) : Bool :=
+  c = 92 || c = 46 || c = 43 || c = 42 || c = 63 || c = 40 || c = 41 || c = 124 || c = 91 || c = 93 ||
+  c = 123 || c = 125 || c = 94 || c = 36 || c = 35 || c = 38 || c = 45 || c = 126
+
 /-- `like_to_regex`, the text of the regular expression (exact, character by character).
 `esc`: the current character is escaped by a backslash that is not itself escaped. -/
 def likeToRegexGo : List Nat → (inList : Bool) → (esc : Bool) → (out : List Nat) → List Nat
@@ -221,21 +226,26 @@ def likeToRegexGo : List Nat → (inList : Bool) → (esc : Bool) → (out : Lis
       if c = 93 ∧ esc = false then likeToRegexGo rest false next (c :: out)
       else if isRegexMeta c then likeToRegexGo rest true next (c :: 92 :: out)
       else likeToRegexGo rest true next (c :: out)
-    else if isRegexMeta c ∨ c = 94 then
-      likeToRegexGo rest false next (if esc then c :: out else c :: 92 :: out)
-    else if c = 91 then likeToRegexGo rest (!esc) next (c :: out)
-    else if c = 37 then
-      if esc then likeToRegexGo rest false next (c :: out)
-      else likeToRegexGo rest false next (42 :: 46 :: out)
-    else if c = 95 then
-      if esc then likeToRegexGo rest false next (c :: out.tail)
-      else likeToRegexGo rest false next (63 :: out)
+    else if esc then
+      -- `pattern.pop(); pattern.push_str(&regex::escape(c))`
+      likeToRegexGo rest false next (if regexEscapes c then c :: 92 :: out.tail else c :: out.tail)
+    else if isRegexMeta c ∨ c = 94 then likeToRegexGo rest false next (c :: 92 :: out)
+    else if c = 91 then likeToRegexGo rest true next (c :: out)
+    else if c = 37 then likeToRegexGo rest false next (42 :: 46 :: out)
+    else if c = 95 then likeToRegexGo rest false next (63 :: out)
     else likeToRegexGo rest false next (c :: out)
 
-/-- the out list is kept reversed -/
-def likeToRegex (p : List Nat) : List Nat := (36 :: likeToRegexGo p false false [94]).reverse
+/-- the `escaped` flag after the last character: the pattern ends in a backslash that escapes nothing -/
+def endsEscaped : List Nat → Bool → Bool
+  | [], esc => esc
+  | c :: rest, esc => endsEscaped rest (!esc && c == 92)
 
-/-- `like_to_regex` BEFORE `fix: LIKE escape handling …`: a character counted as escaped when the
+/-- the out list is kept reversed; a dangling backslash is doubled so that it cannot escape the `$` -/
+def likeToRegex (p : List Nat) : List Nat :=
+  let out := likeToRegexGo p false false [94]
+  (36 :: (if endsEscaped p false then 92 :: out else out)).reverse
+
+/-- `like_to_regex` BEFORE the two `fix: LIKE escape …` commits: a character counted as escaped when the
 single preceding character was a backslash (so `\\%` lost its wildcard) and an escaped regex
 meta character got a second backslash (`\.` became "backslash, any character") -/
 def likeToRegexGoOld : List Nat → (inList : Bool) → (prev : Option Nat) → (out : List Nat) → List Nat
